@@ -37,7 +37,7 @@ ASSUMPTIONS = [
     "a field value 'changes' when it is replaced by another object that is not an equal value of the same type; node-valued fields must keep the identical object",
     "registry membership may change only as specified for detach / replace (C03's subject) and is not part of the frame",
 ]
-MUST_SEE = ["list_valued_tuple_fields", "hash_churn_rounds", "copy_protocol_ops", "digest_size_switches", "ops", "frames_checked", "raising_ops", "watched_writes_on_new_nodes", "setattr_rejected", "delattr_rejected", "repo_tests_contract_evaluations", "deserialize_registry_hits", "failing_replace_on_suffix_twin", "transform_returns_existing_node", "transform_rebuilds_equal_node"]
+MUST_SEE = ["compiled_xpath_reused", "mutable_container_in_property", "list_valued_tuple_fields", "hash_churn_rounds", "copy_protocol_ops", "digest_size_switches", "ops", "frames_checked", "raising_ops", "watched_writes_on_new_nodes", "setattr_rejected", "delattr_rejected", "repo_tests_contract_evaluations", "deserialize_registry_hits", "failing_replace_on_suffix_twin", "transform_returns_existing_node", "transform_rebuilds_equal_node"]
 CONFIG = {
     "quick": {"shards": 16, "histories": 30, "ops": 35, "watchdog_s": 600},
     "thorough": {"shards": 32, "histories": 200, "ops": 60, "watchdog_s": 3400},
@@ -48,10 +48,30 @@ class Boom(Exception):
     pass
 
 
+COMPILED_XPATHS: dict = {}
+
+
+def _deep(v):
+    """copy of a mutable container held by a field: an in-place edit of it is a change of the field's value"""
+    import copy
+
+    from pyoak.node import ASTNode
+
+    if isinstance(v, list) and any(isinstance(x, ASTNode) for x in v):
+        return ("elements", [id(x) for x in v])  # a list of nodes: the same objects in the same order
+    return copy.deepcopy(v) if isinstance(v, (dict, list, set, bytearray)) else None
+
+
 def take_frame(U, handles):
+    from pyoak.node import NODE_REGISTRY
+
     snap = {}
-    for n in reachable(U, handles).values():
-        vals = tuple((f.name, getattr(n, f.name)) for f in dataclasses.fields(n))
+    everything = list(reachable(U, handles).values())
+    seen = {id(n) for n in everything}
+    # every other live registered node as well (nodes the library itself created and keeps, e.g. helper nodes)
+    everything += [n for n in list(NODE_REGISTRY.values()) if id(n) not in seen]
+    for n in everything:
+        vals = tuple((f.name, getattr(n, f.name), _deep(getattr(n, f.name))) for f in dataclasses.fields(n))
         snap[id(n)] = (n, vals, n.id, n.content_id, hash(n))
     return snap
 
@@ -60,12 +80,18 @@ def diff_frame(snap):
     from pyoak.node import ASTNode
 
     for n, vals, id_, cid, h in snap.values():
-        for name, old in vals:
+        for name, old, deep in vals:
             try:
                 new = getattr(n, name)
             except AttributeError:
                 return f"{type(n).__name__}.{name} was deleted"
             if new is old:
+                if isinstance(deep, tuple) and deep and deep[0] == "elements":
+                    if [id(x) for x in new] != deep[1]:
+                        return f"{type(n).__name__}.{name}: the list held by the field was edited in place"
+                    continue
+                if deep is not None and (new != deep or repr(new) != repr(deep)):
+                    return f"{type(n).__name__}.{name}: the container held by the field was edited in place, from {deep!r:.60} to {new!r:.60}"
                 continue
             if isinstance(old, ASTNode) or isinstance(new, ASTNode):
                 return f"{type(n).__name__}.{name}: node-valued field holds another object"
@@ -233,6 +259,10 @@ def histories(ctx, U, state, take_frame, diff_frame):
         tg = G.TreeGen(rng, U, max_nodes=12, max_depth=5, max_width=4, share=0.1, twin=0.3, p_origin=0.5, hostile=0.05)
         for _ in range(3):
             handles.append(build(U, tg.tree()))
+        if case % 3 == 0:
+            # a property typed Any that holds nested mutable containers (the node owns them)
+            handles.append(U.cls[f"{P}List"](items=(U.cls[f"{P}Handle"](name="h", symbol={"b": {3, 1, 2}, "a": [2, 1], "c": {"z": 1, "y": {9, 8}}}), U.cls[f"{P}Leaf"](v=case))))
+            ctx.count("mutable_container_in_property")
         fp = G.shape_fingerprint(U, tg.tree())
 
         def nodes():
@@ -267,7 +297,12 @@ def histories(ctx, U, state, take_frame, diff_frame):
             n = rng.choice(handles)
             for text in (f"//{P}Leaf", f"/{P}Bin/@left", f"//@items[1]{P}Expr", f"//{P}Un//{P}Leaf", "@child " + f"{P}Expr"):
                 try:
-                    xp = ASTXpath(text)
+                    # compiled once per process and used again on whatever root comes next
+                    xp = COMPILED_XPATHS.get(text)
+                    if xp is None:
+                        xp = COMPILED_XPATHS[text] = ASTXpath(text)
+                    else:
+                        ctx.count("compiled_xpath_reused")
                     got = list(xp.findall(n))
                     n.find(text)
                     for g in got[:2]:
@@ -475,7 +510,7 @@ def histories(ctx, U, state, take_frame, diff_frame):
                 kids = h.children
                 if kids:
                     k = rng.choice(kids)
-                    snap_extra[id(k)] = (k, tuple((f.name, getattr(k, f.name)) for f in dataclasses.fields(k)), k.id, k.content_id, hash(k))
+                    snap_extra[id(k)] = (k, tuple((f.name, getattr(k, f.name), None) for f in dataclasses.fields(k)), k.id, k.content_id, hash(k))
                     k.detach_self()
                 copy.deepcopy(h)
 
